@@ -37,3 +37,12 @@ Proof.
   intros. unfold verify_owner. destruct (t =? 61)%N eqn:E; [apply N.eqb_eq in E; contradiction|reflexivity].
 Qed.
 Print Assumptions C01_wrong_type_aborts.
+
+(* ... and conversely: when every one of those checks holds the device does go on, so [checked] is exactly the
+   device's criterion (no hidden further condition, no check that silently never fires) *)
+Theorem C01_proceeds_if_checked : forall O_der O_rfc O_verify O_hash O_hmac O_pubkey d b61 resps to1d k pdn,
+  k <> PubOther ->
+  checked O_der O_rfc O_verify O_hash O_hmac O_pubkey d b61 resps to1d k pdn ->
+  verify_owner O_der O_rfc O_verify O_hash O_hmac O_pubkey d (61%N, b61) resps to1d = Proceed k pdn.
+Proof. exact verify_owner_complete. Qed.
+Print Assumptions C01_proceeds_if_checked.
